@@ -1,5 +1,5 @@
 From Coq Require Extraction ExtrOcamlBasic.
-From OxiVerif Require Import Base.Conv DD.Table DD.TableExtra Mgr.Conc Mgr.ConcCache Mgr.ConcTerm.
+From OxiVerif Require Import Base.Conv DD.Table DD.TableExtra Mgr.Conc Mgr.ConcCache Mgr.ConcTerm Mgr.ConcTermLog.
 Extraction Language OCaml.
 Extraction "model.ml" conv_anchor
   Conc.step_tbl Conc.run_tbl Conc.step_rc Conc.run_rc Conc.erase_rc Conc.dec_ok_b Conc.borrow_b Conc.can_borrow_b Conc.step Conc.run Conc.run_results Conc.erase Conc.to_snap Conc.cinv_b
@@ -11,4 +11,6 @@ Extraction "model.ml" conv_anchor
   ConcCache.lstep ConcCache.lrun ConcCache.clstep ConcCache.clrun ConcCache.mkL ConcCache.lt ConcCache.lb ConcCache.lph ConcCache.lnext ConcCache.gc_claimed_b
   ConcCache.ledges_ok_b ConcCache.kstep ConcCache.krun ConcCache.kinit ConcCache.good ConcCache.no_dangling_b ConcCache.dangling_unlocked_b
   ConcTerm.xstep ConcTerm.xrun ConcTerm.xrun_results ConcTerm.ctinit ConcTerm.lift_terms ConcTerm.tinv_b
-  ConcTerm.xno_dangling_b ConcTerm.xterms_unique_b ConcTerm.counts_exact_b.
+  ConcTerm.xno_dangling_b ConcTerm.xterms_unique_b ConcTerm.counts_exact_b
+  ConcTermLog.ystep ConcTermLog.yrun ConcTermLog.yinit ConcTermLog.ymatch_b ConcTermLog.yinv_b ConcTermLog.ylift ConcTermLog.yowes
+  ConcTerm.tfind ConcTerm.tfind_val ConcTerm.stored_b ConcTerm.xowners.
